@@ -594,7 +594,8 @@ where
         for (i, expr) in data.parameters.iter().enumerate() {
             // Types checked in expression, so we don't need additional check
             let expr_result = self.expression(expr, body_state)?;
-            if expr_result.expr_type != func_data.parameters[i] {
+            // A surplus argument has no declared parameter to match
+            if func_data.parameters.get(i) != Some(&expr_result.expr_type) {
                 self.add_error(error::StateErrorResult::new(
                     error::StateErrorKind::FunctionParameterTypeWrong,
                     expr_result.expr_type.to_string(),
